@@ -318,6 +318,14 @@ pub fn snapshot_files(db: &Arc<FixtureDatabase>, root: &Path, files: &[PathBuf],
             s.entries.insert(format!("goto {}:{}:{}", rel(root, &u.file_path), u.line, c), dk(root, &d));
         }
     }
+    // the library's by-name lookup, for every (file, name) that is used somewhere
+    let mut asked: std::collections::BTreeSet<(PathBuf, String)> = Default::default();
+    for u in super::dbsnap::all_usages(db) {
+        if asked.insert((u.file_path.clone(), u.name.clone())) {
+            let d = db.resolve_fixture_for_file(&u.file_path, &u.name);
+            s.entries.insert(format!("resolve-by-name {} {}", rel(root, &u.file_path), u.name), dk(root, &d));
+        }
+    }
     // references of every definition
     for d in &defs {
         let mut r: Vec<String> = db.find_references_for_definition(d).iter().map(|u| usage_key(root, u)).collect();
